@@ -18,6 +18,42 @@ def src(n):
     return re.sub(r'\s+', '', n.get('s') or '')
 
 
+def unit_discipline(ctx, r5, only_sinks=None):
+    """Every position the language sees is a code-point count; every position a &str / regex-automata API sees is a byte
+    offset.  For each *sink* in the builtins (substring/substr indices, padding widths, integers handed back to the program
+    by the str and regex natives; and in the other direction &str slicing and regex Input ranges) the origins of the operand
+    are computed backwards through the MIR (through closures one level up and down) and must not contain the other unit."""
+    from .lib import units, mirq
+    from .lib.facts import op_place
+    mir = ctx.mir
+    n = 0
+    for b in mir.bodies:
+        if not b.file.startswith('src/builtin/') or '::tests::' in b.nid:
+            continue
+        found = []
+        for bb, tm, o, needs, what in units.sinks_of(b):
+            found.append((mirq.site(b, bb), o, needs, what))
+        if b.file in ('src/builtin/str.rs', 'src/builtin/regex.rs'):
+            for i, j, s in b.stmts():
+                if s['k'] == 'assign' and s['rv']['k'] == 'agg' and s['rv'].get('adt') == 'xvalue::XValue' and s['rv']['v'] == 'Int' and s['rv']['ops']:
+                    found.append((mirq.site(b, i, j), s['rv']['ops'][0], 'cp', 'XValue::Int returned to the program'))
+        for site, o, needs, what in found:
+            if only_sinks and not any(x in what for x in only_sinks):
+                continue
+            p = op_place(o)
+            og = units.origins_ip(mir, b, p['l']) if p is not None else set()
+            us = {u for u, _, _ in og}
+            bad = sorted({w for u, w, _ in og if (needs == 'cp' and u == 'byte') or (needs == 'byte' and u in ('cp', 'program-int'))})
+            n += 1
+            r5.inst({'body': b.nid, 'site': site, 'sink': what, 'needs': needs, 'origins': sorted({'%s:%s' % (u, w.split('::')[-1]) for u, w, _ in og})}, ok=not bad, kind=(b.nid, what))
+            if bad:
+                wrong = 'a byte offset' if needs == 'cp' else 'a code-point index supplied by the program'
+                r5.fail('%s/%s/%s' % (b.nid, re.sub(r'[^A-Za-z0-9]+', '-', what).strip('-'), 'byte-as-cp' if needs == 'cp' else 'cp-as-byte'), site,
+                        '%s (%s) reaches %s, which counts in %s, without conversion: wrong positions (or a panic on a char boundary / out-of-range span) for non-ASCII text'
+                        % (wrong, ', '.join(x.split('::')[-1] for x in bad), what, 'code points' if needs == 'cp' else 'bytes'))
+    return n
+
+
 def run(ctx):
     ast = ctx.ast
     ctx.explanation = ('Integrity of the dual representation (buffer + code-point table) at every construction site, bounds tests before every '
@@ -84,40 +120,10 @@ def run(ctx):
                 r2.fail('%s/%s/unchecked-start' % (fn['name'], c['method']), '%s:%d' % (STR, c['line']), '%s(%s, ..) without a preceding test of `%s` against the length: an out-of-range index slices past the buffer and crashes' % (c['method'], start, var))
     r2.need(3)
 
-    # ---------------- R18.5 byte offsets are never used as code-point indices
-    r5 = ctx.rule('R18.5', 'byte offsets of &str searches are converted to code-point counts before being used or returned')
-    for f, fn, im in astq.all_fns(ast):
-        if f != STR:
-            continue
-        # (a) str::find / rfind results
-        for c, ps in find_nodes(fn['body'], lambda y: y.get('k') == 'mcall' and y['method'] in ('find', 'rfind', 'match_indices', 'char_indices', 'find_iter')):
-            if c['method'] == 'find_iter':
-                continue
-            # the enclosing statement
-            stmt = None
-            for p in ps:
-                if p.get('k') == 'let':
-                    stmt = p
-            if stmt is None:
-                continue
-            from .lib.facts import walk as _walk
-            text = []
-            _walk(stmt, lambda n, pp: text.append(src(n)) if n.get('s') else None)
-            whole = ''.join(text)
-            returns_int = 'XValue::Int' in whole or 'substring(' in whole or 'substr(' in whole
-            converted = '.chars().count()' in whole
-            ok = (not returns_int) or converted
-            r5.inst({'fn': fn['name'], 'search': c['method'], 'offset_becomes_index': returns_int, 'converted_to_code_points': converted}, ok=ok, kind=(fn['name'], c['line'] - fn['line']))
-            if not ok:
-                r5.fail('%s/%s/byte-offset' % (fn['name'], c['method']), '%s:%d' % (STR, c['line']), 'the byte offset returned by str::%s is used as a code-point index without conversion: wrong positions for non-ASCII text' % c['method'])
-        # (b) regex match offsets must not be fed to the code-point slicing routines
-        for c, ps in find_nodes(fn['body'], lambda y: y.get('k') == 'mcall' and y['method'] in ('substring', 'substr')):
-            args_src = ''.join(src(a) for a in c['args'])
-            bad = re.search(r'\bm\.(start|end)\(\)', args_src)
-            r5.inst({'fn': fn['name'], 'slice_args': args_src[:50]}, ok=not bad, kind=(fn['name'], 'slice', c['line'] - fn['line']))
-            if bad:
-                r5.fail('%s/%s/regex-offset' % (fn['name'], c['method']), '%s:%d' % (STR, c['line']), 'a regex match offset (bytes) is passed to %s, which indexes code points' % c['method'])
-    r5.need(4)
+    # ---------------- R18.5 byte offsets are never used as code-point indices (and vice versa): unit analysis on the MIR
+    r5 = ctx.rule('R18.5', 'byte offsets of &str / regex searches are converted to code-point counts before being used or returned (and program indices before byte APIs)')
+    unit_discipline(ctx, r5)
+    r5.need(12)
 
     # ---------------- R18.3 escapes
     r3 = ctx.rule('R18.3', 'escape table agrees with the book')
